@@ -113,8 +113,11 @@ def replay_density(data):
                 want3 = a.rho(pts) / (a.rho(pts) + b.rho(pts))
                 if not np.allclose(w3, want3, rtol=1e-4, atol=1e-6):
                     bad.append("StockholderWeight.from_xyz_files(f1, f2) is not rho(f1)/(rho(f1)+rho(f2)) (max deviation %.3g)" % np.abs(w3 - want3).max())
-                # the two files swap their contents; loading the same paths again describes the new contents
+                # the two files swap their contents (atoms now named by upper-case site labels such as CL5, as other programs write them); loading the same paths
+                # again describes the new contents
                 ta, tb = open(names[0]).read(), open(names[1]).read()
+                up = lambda t: "\n".join(t.split("\n")[:2] + [" ".join([ln.split()[0].upper() + str(k + 1)] + ln.split()[1:]) for k, ln in enumerate(x for x in t.split("\n")[2:] if x.strip())]) + "\n"
+                ta, tb = up(ta), up(tb)
                 open(names[0], "w").write(tb)
                 open(names[1], "w").write(ta)
                 w4 = StockholderWeight.from_xyz_files(names[0], names[1]).weights(pts)
@@ -494,6 +497,16 @@ def part_wrappers(ctx):
         swx = md.StockholderWeight.from_xyz_files(fa, fb)
         a, b, args, kw = log[0]
         okx = okx and len(log) == 1 and same(a.positions, PB) and same(b.positions, PA)
+        # element symbols in upper case and site labels (symbol + digits), as other programs write .xyz files: the table rows bound are
+        # those of the elements
+        open(fa, "w").write("2\nupper\nCL 0.25 -0.5 1.0\nBR2 1.5 0.75 -0.25\n")
+        open(fb, "w").write("2\nmixed\nNa1 2.0 -1.25 0.5\nZN2 0.1 0.2 3.3\n")
+        del log[:]
+        swx = md.StockholderWeight.from_xyz_files(fa, fb)
+        a, b, args, kw = log[0]
+        ra = md.PromoleculeDensity((np.array([17, 35]), np.array([[0.25, -0.5, 1.0], [1.5, 0.75, -0.25]])))
+        rb = md.PromoleculeDensity((np.array([11, 30]), np.array([[2.0, -1.25, 0.5], [0.1, 0.2, 3.3]])))
+        okx = okx and np.array_equal(np.asarray(a.rho_data), np.asarray(ra.dens.rho_data)) and np.array_equal(np.asarray(b.rho_data), np.asarray(rb.dens.rho_data))
     except Exception as e:
         okx = False
     finally:
@@ -502,7 +515,7 @@ def part_wrappers(ctx):
         os.rmdir(tmpd)
     ctx.record("wrappers (from_xyz_files): interior density from the first file, exterior from the second", "holds" if okx else "counterexample", nontrivial=True)
     if not okx:
-        bad = "StockholderWeight.from_xyz_files does not build the interior density from the first file and the exterior from the second (files read, rewritten with other contents and read again)"
+        bad = "StockholderWeight.from_xyz_files does not build the interior density from the first file and the exterior from the second (files read, rewritten with other contents -- also with upper-case site labels -- and read again), or binds the table rows of other elements"
     for p in paths:
         if p.exc is not None:
             bad = "wrapper raises %s: %s" % (type(p.exc).__name__, p.exc)
